@@ -3,7 +3,7 @@ import contracts.all  # noqa
 import contracts.storage as ST
 import contracts.standins_storage as B
 
-PROVED = [ST.save_from, ST.saver_close, ST.saver_save]
+PROVED = [ST.save_from, ST.saver_close, ST.saver_save, ST.frontend_find, ST.can_overwrite]
 
 PROPERTY = Property(
     "C04", "proof",
@@ -20,5 +20,7 @@ PROPERTY = Property(
                 "recorded and the data never becomes valid), the failure is remembered and thrown back into the source before it is "
                 "re-raised, a MailboxKilled ends the saver without re-raising; on the normal path the data is finalised only after every "
                 "chunk write has finished AND has been checked for an exception (a failed write is never reported as success); "
-                "close finalises the backend only after the closed flag is set and never after unfinished writes.",
+                "close finalises the backend only after the closed flag is set and never after unfinished writes.  On the reading side "
+                "StorageFrontend.find (broken-data check on) returns only data whose metadata carries no exception and has writing_ended "
+                "(unless incomplete data was asked for), and overwrite='if_broken' permits overwriting exactly such invalid data.",
 )
